@@ -85,11 +85,57 @@ GROUPS = {
  "k_reservoir": [
     dict(file="src/reservoirsampling.rs", fn="draw_gap", lean="reservoir_draw_gap", self=[("k", "N")], extra=[("unit", "F")],
          subst=[(r"self\.rng\.gen_range\(\(0\.\)\.\.1\.\)", "unit")]),
+ ]
+ ,
+ "k_reservoir_add": [
+    dict(file="src/reservoirsampling.rs", fn="add", lean="reservoir_add", mode="flow",
+         generic=[("R", "Type"), ("I", "Pds.Reservoir.RngI R")],
+         self=[("k", "N")], self_mut=[("rng", "R"), ("reservoir", "L(N)"), ("i", "N"), ("skip_until", "N")],
+         param_types={"obj": "N"}, returns="self",
+         subst=[(r"self\.skip_until = t \+ self\.draw_gap\(t\);", "let g = rng_gap(t); self.skip_until = t + g;"),
+                (r"self\.skip_until = self\.i \+ 1 \+ self\.draw_gap\(self\.i \+ 1\);", "let g = rng_gap(self.i + 1); self.skip_until = self.i + 1 + g;"),
+                (r"self\.rng\.gen_range\(0\.\.=self\.i\)", "rng_below(self.i + 1)"),
+                (r"self\.rng\.gen_range\(0\.\.self\.k\)", "rng_below(self.k)")],
+         effects={"rng_gap": ("I.gap {self.k} {0} {self.rng}", "N", "self.rng"),
+                  "rng_below": ("I.below {0} {self.rng}", "N", "self.rng")}),
+    dict(file="src/reservoirsampling.rs", fn="clear", lean="reservoir_clear", mode="flow",
+         generic=[("R", "Type")],
+         self=[], self_mut=[("rng", "R"), ("reservoir", "L(N)"), ("i", "N"), ("skip_until", "N")], returns="self"),
  ],
+ "k_td_read": [
+    dict(file=TD, impl=r"impl<S> TDigestInner<S>", fn="count", lean="td_count", mode="flow",
+         self=[("centroids", "L(S:Centroid)")], self_mut=[], returns="F"),
+    dict(file=TD, impl=r"impl<S> TDigestInner<S>", fn="cdf", lean="td_cdf", mode="flow",
+         self=[("centroids", "L(S:Centroid)"), ("min", "F"), ("max", "F")], self_mut=[], returns="F",
+         calls={"self.count": ("td_count {self.centroids}", "F"),
+                "Self::interpolate": ("interpolate {0} {1} {2}", "F"),
+                "self.clamped_mean": ("clamped_mean {self.min} {self.max} {0}.sum {0}.count", "F")}),
+    dict(file=TD, impl=r"impl<S> TDigestInner<S>", fn="quantile", lean="td_quantile", mode="flow",
+         self=[("centroids", "L(S:Centroid)"), ("min", "F"), ("max", "F")], self_mut=[], returns="F",
+         calls={"self.count": ("td_count {self.centroids}", "F"),
+                "Self::interpolate": ("interpolate {0} {1} {2}", "F"),
+                "self.clamped_mean": ("clamped_mean {self.min} {self.max} {0}.sum {0}.count", "F")}),
+ ],
+ "k_td_merge": [
+    # the fusion pass of `merge`: everything after the sort (the sorted vector `x` is a parameter)
+    dict(file=TD, impl=r"impl<S> TDigestInner<S>", fn="merge", lean="td_merge_pass", mode="flow",
+         self=[("backlog", "L(S:Centroid)"), ("n_samples", "N"), ("scale_function", "X:Pds.TDigest.ScaleFn α")],
+         self_mut=[("centroids", "L(S:Centroid)")], extra=[("x", "L(S:Centroid)")], returns="self",
+         vec_types={"result": "L(S:Centroid)"},
+         subst=[(r"// TODO: use sort_by_cached_key once stable\s*let mut x: Vec<\(f64, Centroid\)> = self\s*\.centroids\s*\.drain\(\.\.\)\s*\.chain\(self\.backlog\.drain\(\.\.\)\)\s*\.map\(\|c\| \(c\.mean\(\), c\)\)\s*\.collect\(\);\s*x\.sort_by\(\|t1, t2\| t1\.0\.partial_cmp\(&t2\.0\)\.unwrap\(\)\);\s*let mut x: Vec<Centroid> = x\.drain\(\.\.\)\.map\(\|t\| t\.1\)\.collect\(\);", "")],
+         calls={"X:Pds.TDigest.ScaleFn α.f": ("{0}.f {1} {2}", "F"), "X:Pds.TDigest.ScaleFn α.f_inv": ("{0}.fInv {1} {2}", "F"),
+                "S:Centroid.fuse": ("let p_ := Centroid_fuse {0}.sum {0}.count {1}.sum {1}.count; ({ sum := p_.1, count := p_.2 } : Pds.TDigest.Centroid α)", "S:Centroid")}),
+ ],
+}
+STRUCTS = {
+    "Centroid": {"lean": "Pds.TDigest.Centroid α", "fields": [("sum", "F"), ("count", "F")]},
 }
 
 # group -> Lean module (Pds/Generated/Kernels/<Module>.lean); other generated modules a group's kernels call
 MODULE = {"k_td_core": "TdCore", "k_td_scale": "TdScale", "k_sizing_bloom": "SizingBloom", "k_sizing_cms": "SizingCms",
           "k_sizing_lossy": "SizingLossy", "k_sizing_cuckoo": "SizingCuckoo", "k_alloc": "Alloc", "k_hll_add": "HllAdd",
-          "k_hll_err": "HllErr", "k_hashiter": "HashIter", "k_cuckoo": "Cuckoo", "k_quotient": "Quotient", "k_reservoir": "Reservoir"}
-IMPORTS = {}
+          "k_hll_err": "HllErr", "k_hashiter": "HashIter", "k_cuckoo": "Cuckoo", "k_quotient": "Quotient", "k_reservoir": "Reservoir",
+          "k_reservoir_add": "ReservoirAdd", "k_td_read": "TdRead", "k_td_merge": "TdMerge"}
+IMPORTS = {"k_td_read": ["TdCore"], "k_td_merge": ["TdCore"]}
+# hand-written modules a generated module needs (type definitions only)
+LEAN_IMPORTS = {"k_reservoir_add": ["Pds.Model.Reservoir"], "k_td_read": ["Pds.Model.TDigest"], "k_td_merge": ["Pds.Model.TDigest"]}
